@@ -671,6 +671,31 @@ func NewConst(pos *Position, lhs []*Identifier, typ Expression, rhs []Expression
 	return &Const{pos, lhs, typ, rhs, index}
 }
 
+// String returns the string representation of n.
+func (n *Const) String() string {
+	var s strings.Builder
+	s.WriteString("const ")
+	for i, ident := range n.Lhs {
+		if i > 0 {
+			s.WriteString(", ")
+		}
+		s.WriteString(ident.Name)
+	}
+	if n.Type != nil {
+		s.WriteString(" " + n.Type.String())
+	}
+	if len(n.Rhs) > 0 {
+		s.WriteString(" = ")
+		for i, value := range n.Rhs {
+			if i > 0 {
+				s.WriteString(", ")
+			}
+			s.WriteString(value.String())
+		}
+	}
+	return s.String()
+}
+
 // Continue node represents a "continue" statement.
 type Continue struct {
 	*Position             // position in the source.
@@ -1582,7 +1607,7 @@ func (n *Var) String() string {
 	s.WriteString("var ")
 	for i, ident := range n.Lhs {
 		if i > 0 {
-			s.WriteString(" ")
+			s.WriteString(", ")
 		}
 		s.WriteString(ident.Name)
 	}
@@ -1593,7 +1618,7 @@ func (n *Var) String() string {
 		s.WriteString(" = ")
 		for i, value := range n.Rhs {
 			if i > 0 {
-				s.WriteString(" ")
+				s.WriteString(", ")
 			}
 			s.WriteString(value.String())
 		}
